@@ -110,7 +110,7 @@ class Filtration(SimplicialComplex):
         # use an instance of Filtration by default, with the same representation as us
         if c is None:
             rep = self.representation().__class__()
-            c = Filtration(inds[0], rep=rep)
+            c = Filtration(inds[0] if len(inds) > 0 else self.getIndex(), rep=rep)
 
         # copy all simplices and attributes across to new filtration
         indf = c.getIndex()
